@@ -301,12 +301,24 @@ def check(run, prog, tier):
     touches_vs = any(n.get("k") == "Mem" and n.get("f") == "vs" for b, i, n in fcc.nodes())
     run.need(not touches_vs, "free_called_call leaves ->vs alone (otherwise the rule has no subject)")
     nsite = 0
-    for f in sorted(prog.functions(), key=lambda x: (x.file, x.line)):
-        sites = [(b, i, n) for b, i, n in f.calls("free_called_call")]
-        if not sites or f.name in ("free_call",):
+    import inline
+    for f0 in sorted(prog.functions(), key=lambda x: (x.file, x.line)):
+        if not any(True for _ in f0.calls("free_called_call")) or f0.name in ("free_call",):
             continue
-        run.saw(f)
-        handled = {bid for bid in f.reachable() if f.branch_cond(bid) is not None and strip(f.branch_cond(bid)).get("k") == "Mem" and strip(f.branch_cond(bid)).get("f") == "vs"}
+        # with the file-local helpers it calls spliced in: the hand-over of ->vs may live in one of them
+        f = inline.inlined(f0)
+        sites = [(b, i, n) for b, i, n in f.calls("free_called_call")]
+        run.saw(f0)
+        # locals that are a copy of X->vs (array_t *vec = cop->vs): a test of the copy is a test of the field
+        vs_alias = {strip(n2["L"]).get("id") for b2, i2, n2 in f.nodes() if n2.get("k") == "Asg" and n2.get("op") == "=" and strip(n2["L"]).get("k") == "Ref" and strip(n2["R"]).get("k") == "Mem" and strip(n2["R"]).get("f") == "vs"}
+        vs_alias |= {v.get("id") for b2, i2, n2 in f.nodes() if n2.get("k") == "Decl" for v in n2.get("vars", ()) if isinstance(v.get("init"), dict) and strip(v["init"]).get("k") == "Mem" and strip(v["init"]).get("f") == "vs"}
+        vs_alias.discard(None)
+
+        def is_vs(e):
+            e, _t = facts.normalize_cond(e, True)
+            e = strip(e)
+            return (e.get("k") == "Mem" and e.get("f") == "vs") or (e.get("k") == "Ref" and e.get("id") in vs_alias)
+        handled = {bid for bid in f.reachable() if f.branch_cond(bid) is not None and is_vs(f.branch_cond(bid))}
         handled |= {b.id for b, i, n in f.calls() if n.get("fn") in ("free_array", "free_empty_array") and any(x.get("k") == "Mem" and x.get("f") == "vs" for x in walk(n["args"][0]))}
         sj = [(b, i, n) for b, i, n in f.calls() if n.get("fn") in ctxstate.SETJMP]
         sj_true = set()
